@@ -11,7 +11,22 @@ change of it changes the statements proved in theories/C04.
                          _initialize_download          offset = that; counter := offset; uint64 on wire   -> offset_width
                          _download_file                open mode 'ab'; receive filesize - bytes_transfered -> download_append, recv_size
                          _upload_file                  open 'rb'; seek(bytes_transfered); send_file       -> upload_seek
+  (phase 4)
+  network/connection.py  receive_transfer_ticket/_offset   readexactly(calcsize('I'/'Q')) + uint32/uint64  -> ticket_width, offset_read_width, offset_read_exact
+                         receive_until_eof                 read(-1) without timeout                          -> eof_wait_bounded
+  transfer/manager.py    _initialize_download              no size -> refused before any state change; offset send failure -> which state;
+                                                           order file connection -> offset -> data            -> dl_nosize_state, dl_offset_fail_state
+                         _download_file                    handler table: ConnectionReadError -> which state; else: disconnect, is_transfered ? a : b
+                                                                                                              -> dl_read_error_state, dl_done_state, dl_done_closes
+                         _initialize_upload                order ticket -> offset -> data; offset read failure -> which state
+                                                                                                              -> ticket_send_width, ul_offset_fail_state
+                         _upload_file                      handler table: (OSError[, ValueError]) / ConnectionWriteError (+PeerUploadFailed) / else: wait EOF, is_transfered ? a : b
+                                                                                                              -> ul_seek_error_handled, ul_file_error_state, ul_write_error_state,
+                                                                                                                 ul_write_error_msg, ul_waits_eof, ul_done_state
+  Fingerprinted (normalised source must equal translate/pins_c04.json; any edit is a broken tie):
+  see PINNED below.  `python -m translate.tr_c04 --repin [src]` rewrites the pins from the given tree.
 """
+import json
 import ast
 from pathlib import Path
 
@@ -64,9 +79,210 @@ def _cmp(node, left, right, where):
     return CMP[op]
 
 
+PINS = Path(__file__).with_name('pins_c04.json')
+PINNED = {
+    'connection:DataConnection': ['_read', '_send', 'receive_until_eof', 'disconnect'],
+    'connection:PeerConnection': ['receive_data', 'send_data', 'send_file', 'receive_file', 'receive_transfer_ticket', 'receive_transfer_offset'],
+    'manager:TransferManager': ['_initialize_download', '_initialize_upload', '_download_file', '_upload_file', '_on_peer_initialized',
+                                '_calculate_offset', '_on_peer_transfer_request', '_on_peer_upload_failed',
+                                '_get_queued_transfers', '_queue_remotely'],
+    'model:Transfer': ['is_transfered', '_transfer_progress_callback'],
+}
+FILES = {'connection': 'network/connection.py', 'manager': 'transfer/manager.py', 'model': 'transfer/model.py'}
+
+
+def _norm(fn):
+    f = ast.parse(ast.unparse(fn)).body[0]
+    b = f.body
+    if b and isinstance(b[0], ast.Expr) and isinstance(b[0].value, ast.Constant) and isinstance(b[0].value.value, str):
+        f.body = b[1:] or [ast.Pass()]
+    return ast.unparse(f)
+
+
+def fingerprints(src: Path) -> dict:
+    trees = {k: ast.parse((src / 'aioslsk' / v).read_text()) for k, v in FILES.items()}
+    out = {}
+    for key, names in PINNED.items():
+        mod, cls = key.split(':')
+        c = _cls(trees[mod], cls)
+        for n in names:
+            out[f'{cls}.{n}'] = _norm(_fn(c.body, n))
+    return out
+
+
+def check_pins(src: Path):
+    want = json.loads(PINS.read_text())
+    got = fingerprints(src)
+    for k in sorted(set(want) | set(got)):
+        if want.get(k) != got.get(k):
+            import difflib
+            d = list(difflib.unified_diff((want.get(k) or '').splitlines(), (got.get(k) or '').splitlines(), lineterm='', n=0))
+            raise Refuse(f'fingerprint:{k} changed (pinned in translate/pins_c04.json): ' + ' | '.join(d[2:8]))
+
+
+DSTATE = {'incomplete()': 'DIncomplete', 'queue()': 'DQueued', 'complete()': 'DComplete', 'fail(reason=FailReason.CANCELLED)': 'DFailedCancelled'}
+USTATE = {'fail()': 'UFailed', 'queue()': 'UQueued', 'complete()': 'UComplete', 'fail(reason=FailReason.FILE_READ_ERROR)': 'UFailedRead'}
+
+
+def _acts(stmts):
+    """statements without log calls"""
+    out = []
+    for st in stmts:
+        t = _u(st)
+        if t.startswith('logger.') or t.startswith('adapter.'):
+            continue
+        out.append(t)
+    return out
+
+
+def _state(text, table, where):
+    pre = 'await transfer.state.'
+    if not text.startswith(pre) or text[len(pre):] not in table:
+        raise Refuse(f'{where}: unexpected state change `{text}`')
+    return table[text[len(pre):]]
+
+
+def _handler(tr, name, where):
+    for h in tr.handlers:
+        if name in _u(h.type).replace('(', ' ').replace(')', ' ').replace(',', ' ').split():
+            return h
+    raise Refuse(f'{where}: no handler for {name}')
+
+
+def _branch(node, table, where):
+    """`if transfer.is_transfered(): state.A else: state.B` -> (A, B)"""
+    if not (isinstance(node, ast.If) and _u(node.test) == 'transfer.is_transfered()' and len(node.body) == 1 and len(node.orelse) == 1):
+        raise Refuse(f'{where}: completion branch changed: {_u(node)[:120]}')
+    return _state(_u(node.body[0]), table, where), _state(_u(node.orelse[0]), table, where)
+
+
+def translate_phase4(src: Path, conn, man) -> list:
+    out = ['(* ---- phase 4: negotiation widths/order and the handler tables ---- *)']
+    pc = _cls(conn, 'PeerConnection')
+    widths = {}
+    for name, fmt, prim, var in (('receive_transfer_ticket', 'I', 'uint32', 'ticket'), ('receive_transfer_offset', 'Q', 'uint64', 'offset')):
+        b = _acts(_body(_fn(pc.body, name)))
+        if len(b) != 5 or not b[0].startswith('if not self._reader:') or not b[2].startswith('if data is None:') or b[4] != f'return {var}':
+            raise Refuse(f'{name}: statements changed: {[x[:50] for x in b]}')
+        exact = {f"data = await self._read(self._reader.readexactly(struct.calcsize('{fmt}')))": 'true'}
+        if b[1] in exact:
+            ex = 'true'
+        elif b[1].startswith(f"data = await self._read(self._reader.read(struct.calcsize('{fmt}'))"):
+            ex = 'false'
+        else:
+            raise Refuse(f'{name}: read changed: {b[1]}')
+        if b[3] != f'_, {var} = {prim}.deserialize(0, data)':
+            raise Refuse(f'{name}: decoding changed: {b[3]}')
+        widths[var] = ({'I': 4, 'Q': 8}[fmt], ex)
+    out += [f'Definition ticket_width : nat := {widths["ticket"][0]}%nat.',
+            f'Definition offset_read_width : nat := {widths["offset"][0]}%nat.',
+            f'Definition offset_read_exact : bool := {widths["offset"][1]}.   (* readexactly: waits for all the bytes *)']
+    dc = _cls(conn, 'DataConnection')
+    rue = _acts(_body(_fn(dc.body, 'receive_until_eof')))
+    if len(rue) != 2 or not rue[0].startswith('if not self._reader:'):
+        raise Refuse('receive_until_eof: statements changed')
+    if 'return await self._read(self._reader.read(-1))' in rue[1] and 'timeout' not in rue[1]:
+        out += ['Definition eof_wait_bounded : bool := false.   (* receive_until_eof has no timeout *)']
+    else:
+        raise Refuse(f'receive_until_eof: read changed: {rue[1][:200]}')
+
+    tm = _cls(man, 'TransferManager')
+    # _initialize_download
+    idl = _body(_fn(tm.body, '_initialize_download'))
+    first = idl[0]
+    if not (isinstance(first, ast.If) and _u(first.test) == 'request.filesize is None' and _u(first.body[-1]) == 'return'
+            and 'transfer.state.' not in _u(first) and 'allowed=False' in _u(first) and not first.orelse):
+        raise Refuse('_initialize_download: a request without filesize is not refused up front')
+    texts = [_u(x) for x in idl]
+    def idx(pred, what):
+        for i, t in enumerate(texts):
+            if pred(t):
+                return i
+        raise Refuse(f'_initialize_download: {what} not found')
+    i_init = idx(lambda t: t == 'await transfer.state.initialize()', 'state.initialize()')
+    i_fut = idx(lambda t: 'await file_connection_future' in t, 'wait for the file connection')
+    i_off = idx(lambda t: t == 'offset = await self._calculate_offset(transfer)', 'offset computation')
+    i_send = idx(lambda t: t.startswith('try:\n    await file_connection.send_message('), 'offset send')
+    i_data = idx(lambda t: 'await self._download_file(transfer, file_connection)' in t, '_download_file call')
+    if not (0 < i_init < i_fut < i_off < i_send < i_data):
+        raise Refuse('_initialize_download: order refusal < initialize < file connection < offset < send < data changed')
+    h = _handler(idl[i_send], 'ConnectionWriteError', '_initialize_download offset send')
+    ha = _acts(h.body)
+    if len(ha) != 2 or ha[1] != 'return' or not ha[0].startswith('if transfer.is_upload():'):
+        raise Refuse(f'_initialize_download: offset send failure handler changed: {ha}')
+    ifn = [x for x in h.body if isinstance(x, ast.If)][0]
+    out += ['Definition dl_nosize_state : dstate := DRefused.   (* refused before state.initialize() *)',
+            f'Definition dl_offset_fail_state : dstate := {_state(_u(ifn.orelse[0]), DSTATE, "offset send failure")}.']
+    # _download_file
+    df = _body(_fn(tm.body, '_download_file'))
+    tr = [x for x in df if isinstance(x, ast.Try)][-1]
+    if df[-1] is not tr:
+        raise Refuse('_download_file: statements after the try')
+    ra = _acts(_handler(tr, 'ConnectionReadError', '_download_file').body)
+    if len(ra) != 1:
+        raise Refuse(f'_download_file: ConnectionReadError handler changed: {ra}')
+    oe = tr.orelse
+    if len(oe) != 2 or _u(oe[0]) != 'await connection.disconnect(CloseReason.REQUESTED)':
+        raise Refuse('_download_file: else branch changed')
+    a, b = _branch(oe[1], DSTATE, '_download_file')
+    out += [f'Definition dl_read_error_state : dstate := {_state(ra[0], DSTATE, "_download_file read error")}.',
+            f'Definition dl_done_state (transfered : bool) : dstate := if transfered then {a} else {b}.',
+            'Definition dl_done_closes : bool := true.']
+    # _initialize_upload
+    iu = _body(_fn(tm.body, '_initialize_upload'))
+    texts = [_u(x) for x in iu]
+    def idxu(pred, what):
+        for i, t in enumerate(texts):
+            if pred(t):
+                return i
+        raise Refuse(f'_initialize_upload: {what} not found')
+    j_req = idxu(lambda t: 'PeerTransferRequest.Request(' in t and t.startswith('try:'), 'PeerTransferRequest')
+    j_rep = idxu(lambda t: 'create_peer_response_future' in t, 'wait for PeerTransferReply')
+    j_all = idxu(lambda t: t.startswith('if not response.allowed:'), 'allowed test')
+    j_con = idxu(lambda t: 'create_peer_connection(transfer.username, PeerConnectionType.FILE)' in t, 'file connection')
+    tick = {'try:\n    await connection.send_message(uint32(ticket).serialize())': 4, 'try:\n    await connection.send_message(uint64(ticket).serialize())': 8}
+    j_tic = idxu(lambda t: any(t.startswith(k) for k in tick), 'ticket send')
+    j_off = idxu(lambda t: t.startswith('try:\n    transfer.bytes_transfered = await connection.receive_transfer_offset()'), 'offset read')
+    j_up = idxu(lambda t: t == 'await self._upload_file(transfer, connection)', '_upload_file call')
+    if not (j_req < j_rep < j_all < j_con < j_tic < j_off < j_up):
+        raise Refuse('_initialize_upload: order request < reply < file connection < ticket < offset < data changed')
+    tw = [v for k, v in tick.items() if texts[j_tic].startswith(k)][0]
+    oa = _acts(_handler(iu[j_off], 'ConnectionReadError', '_initialize_upload offset read').body)
+    if len(oa) != 2 or oa[1] != 'return':
+        raise Refuse(f'_initialize_upload: offset read failure handler changed: {oa}')
+    out += [f'Definition ticket_send_width : nat := {tw}%nat.',
+            f'Definition ul_offset_fail_state : ustate := {_state(oa[0], USTATE, "offset read failure")}.']
+    # _upload_file
+    uf = _body(_fn(tm.body, '_upload_file'))
+    tr = [x for x in uf if isinstance(x, ast.Try)][-1]
+    if uf[-1] is not tr:
+        raise Refuse('_upload_file: statements after the try')
+    hf = _handler(tr, 'OSError', '_upload_file')
+    fa = _acts(hf.body)
+    if len(fa) != 2 or fa[1] != 'await connection.disconnect(CloseReason.REQUESTED)':
+        raise Refuse(f'_upload_file: file error handler changed: {fa}')
+    hw = _handler(tr, 'ConnectionWriteError', '_upload_file')
+    wa = _acts(hw.body)
+    msg = len(wa) == 2 and 'PeerUploadFailed.Request(transfer.remote_path)' in wa[1] and wa[1].startswith('try:')
+    if not (len(wa) == 1 or msg):
+        raise Refuse(f'_upload_file: write error handler changed: {wa}')
+    oe = tr.orelse
+    waits = len(oe) == 2 and _u(oe[0]) == 'await connection.receive_until_eof(raise_exception=False)'
+    if not (waits or len(oe) == 1):
+        raise Refuse('_upload_file: else branch changed')
+    a, b = _branch(oe[-1], USTATE, '_upload_file')
+    out += [f"Definition ul_seek_error_handled : bool := {'true' if 'ValueError' in _u(hf.type) else 'false'}.   (* except {_u(hf.type)} *)",
+            f'Definition ul_file_error_state : ustate := {_state(fa[0], USTATE, "_upload_file file error")}.',
+            f'Definition ul_write_error_state : ustate := {_state(wa[0], USTATE, "_upload_file write error")}.',
+            f"Definition ul_write_error_msg : bool := {'true' if msg else 'false'}.   (* PeerUploadFailed sent *)",
+            f"Definition ul_waits_eof : bool := {'true' if waits else 'false'}.",
+            f'Definition ul_done_state (transfered : bool) : ustate := if transfered then {a} else {b}.', '']
+    return out
+
+
 def translate(src: Path) -> dict:
     out = ['(* GENERATED by translate/tr_c04.py from network/connection.py, transfer/model.py, transfer/manager.py. Do not edit. *)',
-           'From Coq Require Import ZArith Bool.', 'Open Scope Z_scope.', '']
+           'From Coq Require Import ZArith Bool.', 'From Slsk Require Import C04.Types.', 'Open Scope Z_scope.', '']
 
     # ---- receive_file ------------------------------------------------------------------------
     conn = ast.parse((src / 'aioslsk' / 'network' / 'connection.py').read_text())
@@ -161,4 +377,15 @@ def translate(src: Path) -> dict:
     else:
         raise Refuse(f'_upload_file: with body changed: {ub}')
     out += [f'Definition upload_seek : bool := {seek}.', '']
+    out += translate_phase4(src, conn, man)
+    check_pins(src)
     return {'C04Gen.v': '\n'.join(out)}
+
+
+if __name__ == '__main__':
+    import sys
+    if len(sys.argv) >= 2 and sys.argv[1] == '--repin':
+        srcdir = Path(sys.argv[2] if len(sys.argv) > 2 else '/repo/src')
+        PINS.write_text(json.dumps(fingerprints(srcdir), indent=1, sort_keys=True) + '\n')
+        print('pinned', len(json.loads(PINS.read_text())), 'functions from', srcdir)
+
